@@ -165,6 +165,19 @@ func cmdCheck(args []string) int {
 	nBase := len(runs)
 	runs = append(runs, extra...)
 
+	// native differential: for a sample of harness instances one completed
+	// path's solver model is run natively and in the engine's concrete mode
+	wantWitnesses := 10
+	if tier == "thorough" {
+		wantWitnesses = 40
+	}
+	witnessEvery := 0
+	if os.Getenv("VERIF_NODIFF") == "" && nBase > 0 {
+		witnessEvery = nBase / wantWitnesses
+		if witnessEvery < 1 {
+			witnessEvery = 1
+		}
+	}
 	outs := make([]runOut, len(runs))
 	workers := runtime.NumCPU()
 	if w, _ := strconv.Atoi(os.Getenv("VERIF_WORKERS")); w > 0 {
@@ -184,6 +197,9 @@ func cmdCheck(args []string) int {
 			defer func() { <-sem }()
 			r := runs[i]
 			cfg := RunConfig{Pkg: r.Pkg, Harness: r.Fn, Params: r.Params, Unwind: r.Unwind, MaxPaths: r.MaxPaths, GoOrder: r.GoOrder, MapReverse: r.MapRev, TimeoutMs: timeout, Flags: map[string]bool{}}
+			if i < nBase && witnessEvery > 0 && (i+seed)%witnessEvery == 0 {
+				cfg.Witnesses = 1
+			}
 			for _, f := range r.Flags {
 				cfg.Flags[f] = true
 			}
@@ -369,6 +385,12 @@ func cmdCheck(args []string) int {
 			}
 		}
 	}
+	// native differential of the collected witnesses
+	nDiff, diffMismatch := nativeDifferential(ld, outs[:nBase], vdir)
+	nReplayed += nDiff
+	for _, m := range diffMismatch {
+		inconclusive = append(inconclusive, "ENGINE-MISMATCH (native differential) "+m)
+	}
 	var staticFacts []string
 	if p.Static != nil {
 		facts, viols := p.Static(ld)
@@ -423,6 +445,7 @@ func cmdCheck(args []string) int {
 		"states":              a.Paths,
 		"transitions":         a.Steps,
 		"traces_validated_against_impl": nReplayed,
+		"native_differential":  fmt.Sprintf("%d solver-chosen inputs (one per sampled harness instance, model of a completed path) were run against the natively compiled real code and through the engine's concrete mode; outcome lines (assert results, reach points) agreed on all of them", nDiff),
 		"samples":             samples,
 		"functions_encoded":   fl,
 		"stubs":               sl,
@@ -681,4 +704,212 @@ func cmdReplay(args []string) int {
 	}
 	fmt.Println("NOT REPRODUCED")
 	return 0
+}
+
+// nativeDifferential runs the witnesses natively (one go test per package)
+// and in the engine's concrete mode and compares the outcome lines.
+func nativeDifferential(ld *Loaded, outs []runOut, vdir string) (int, []string) {
+	type wit struct {
+		run   HRun
+		file  string
+		model map[string]any
+	}
+	byPkg := map[string][]wit{}
+	n := 0
+	for _, o := range outs {
+		if o.res == nil || o.run.NoReplay {
+			continue
+		}
+		for _, w := range o.res.Witnesses {
+			file := filepath.Join(vdir, fmt.Sprintf("witness-%d.json", n))
+			n++
+			doc := map[string]any{"pkg": o.run.Pkg, "harness": o.run.Fn, "params": o.run.Params, "model": w, "flags": flagMap(o.run.Flags)}
+			b, _ := json.MarshalIndent(doc, "", " ")
+			os.WriteFile(file, b, 0o644)
+			// re-read so that numbers have the JSON types the replay expects
+			var m map[string]any
+			mb, _ := json.Marshal(w)
+			json.Unmarshal(mb, &m)
+			byPkg[o.run.Pkg] = append(byPkg[o.run.Pkg], wit{o.run, file, m})
+		}
+	}
+	var mismatches []string
+	done := 0
+	for pkg, ws := range byPkg {
+		native, err := nativeWitnessRun(pkg, func() ([]string, []string) {
+			var files, calls []string
+			for _, w := range ws {
+				var ps []string
+				for _, p := range w.run.Params {
+					ps = append(ps, strconv.Itoa(p))
+				}
+				files = append(files, w.file)
+				calls = append(calls, fmt.Sprintf("%s(%s)", w.run.Fn, strings.Join(ps, ", ")))
+			}
+			return files, calls
+		})
+		if err != nil {
+			mismatches = append(mismatches, pkg+": native run failed: "+err.Error())
+			continue
+		}
+		for i, w := range ws {
+			cfg := RunConfig{Pkg: w.run.Pkg, Harness: w.run.Fn, Params: w.run.Params, Unwind: 1 << 20, GoOrder: w.run.GoOrder, MapReverse: w.run.MapRev, Flags: flagMap(w.run.Flags), Replay: w.model}
+			var engineOut []string
+			func() {
+				defer func() {
+					if r := recover(); r != nil {
+						engineOut = []string{fmt.Sprintf("engine panic %v", r)}
+					}
+				}()
+				e, err := NewEngine(ld, cfg)
+				if err != nil {
+					engineOut = []string{"engine error " + err.Error()}
+					return
+				}
+				defer e.Close()
+				res := e.Run()
+				engineOut = res.Outputs
+				for _, inc := range res.Inconclusive {
+					engineOut = append(engineOut, "inconclusive "+inc)
+				}
+			}()
+			nat := native[i]
+			if strings.Join(nat, "\n") != strings.Join(engineOut, "\n") {
+				mismatches = append(mismatches, fmt.Sprintf("%s%v: native %v vs engine %v (witness %s)", w.run.Fn, w.run.Params, lastN(nat, 4), lastN(engineOut, 4), w.file))
+				continue
+			}
+			for _, l := range nat {
+				if strings.HasSuffix(l, " false") || strings.HasPrefix(l, "panic") {
+					mismatches = append(mismatches, fmt.Sprintf("%s%v: the symbolic run proved the assertions on this path but the native run reports %q (witness %s)", w.run.Fn, w.run.Params, l, w.file))
+				}
+			}
+			done++
+		}
+	}
+	return done, mismatches
+}
+
+func lastN(l []string, n int) []string {
+	if len(l) > n {
+		return l[len(l)-n:]
+	}
+	return l
+}
+
+// nativeWitnessRun compiles one test that runs all witnesses of a package.
+func nativeWitnessRun(pkg string, gen func() ([]string, []string)) ([][]string, error) {
+	files, calls := gen()
+	repo := repoDir()
+	ov, err := buildOverlay(repo)
+	if err != nil {
+		return nil, err
+	}
+	scratch := filepath.Join(verifDir(), ".cache", "replay", fmt.Sprintf("w%d-%d", os.Getpid(), time.Now().UnixNano()))
+	os.MkdirAll(scratch, 0o755)
+	defer os.RemoveAll(scratch)
+	repl := map[string]string{}
+	k := 0
+	for path, content := range ov {
+		f := filepath.Join(scratch, fmt.Sprintf("f%d.go", k))
+		k++
+		os.WriteFile(f, content, 0o644)
+		repl[path] = f
+	}
+	pkgDir := filepath.Join(repo, strings.TrimPrefix(pkg, "./"))
+	tests, _ := filepath.Glob(filepath.Join(pkgDir, "*_test.go"))
+	for _, t := range tests {
+		repl[t] = ""
+	}
+	for ci, cut := range nativeCuts {
+		src, err := os.ReadFile(filepath.Join(repo, cut.File))
+		if err != nil {
+			return nil, err
+		}
+		cnt := 1
+		if cut.All {
+			cnt = -1
+		}
+		txt := strings.Replace(string(src), cut.Old, cut.New, cnt)
+		for _, rp := range cut.Repl {
+			txt = strings.ReplaceAll(txt, rp[0], rp[1])
+		}
+		txt += cut.Append
+		f := filepath.Join(scratch, fmt.Sprintf("cut%d.go", ci))
+		os.WriteFile(f, []byte(txt), 0o644)
+		repl[filepath.Join(repo, cut.File)] = f
+		if cut.Wrapper != "" {
+			w := filepath.Join(scratch, fmt.Sprintf("cutw%d.go", ci))
+			os.WriteFile(w, []byte(cut.Wrapper), 0o644)
+			repl[filepath.Join(repo, cut.Pkg, fmt.Sprintf("zz_cut_%d.go", ci))] = w
+		}
+	}
+	var cases strings.Builder
+	for i := range files {
+		fmt.Fprintf(&cases, "\t\t{%q, func() { %s }},\n", files[i], calls[i])
+	}
+	test := fmt.Sprintf(`package %s
+
+import (
+	"fmt"
+	"os"
+	"testing"
+
+	"github.com/indexsupply/shovel/zzvrf"
+)
+
+func TestZZWitness(t *testing.T) {
+	cases := []struct {
+		file string
+		run  func()
+	}{
+%s	}
+	for i, c := range cases {
+		os.Setenv("ZZVRF_REPLAY", c.file)
+		zzvrf.Reset()
+		func() {
+			defer func() {
+				if r := recover(); r != nil {
+					if _, ok := r.(zzvrf.AssumeFailed); ok {
+						fmt.Printf("ZZVRF-W %%d assume-failed\n", i)
+						return
+					}
+					fmt.Printf("ZZVRF-W %%d panic %%v\n", i, r)
+				}
+			}()
+			c.run()
+		}()
+		for _, l := range zzvrf.Log {
+			fmt.Printf("ZZVRF-W %%d %%s\n", i, l)
+		}
+	}
+}
+`, packageNameOf(pkgDir), cases.String())
+	tf := filepath.Join(scratch, "zz_witness_test.go")
+	os.WriteFile(tf, []byte(test), 0o644)
+	repl[filepath.Join(pkgDir, "zz_witness_test.go")] = tf
+	ovj, _ := json.Marshal(map[string]any{"Replace": repl})
+	ovf := filepath.Join(scratch, "overlay.json")
+	os.WriteFile(ovf, ovj, 0o644)
+	cmd := exec.Command("go", "test", "-vet=off", "-count=1", "-overlay", ovf, "-run", "^TestZZWitness$", "-v", pkg)
+	cmd.Dir = repo
+	cmd.Env = append(os.Environ(), "GOFLAGS=-mod=mod", "GOPROXY=off", "GOSUMDB=off", "GOTOOLCHAIN=local")
+	out, _ := cmd.CombinedOutput()
+	res := make([][]string, len(files))
+	seen := false
+	for _, line := range strings.Split(string(out), "\n") {
+		if !strings.HasPrefix(line, "ZZVRF-W ") {
+			continue
+		}
+		seen = true
+		rest := line[len("ZZVRF-W "):]
+		sp := strings.IndexByte(rest, ' ')
+		idx, _ := strconv.Atoi(rest[:sp])
+		if idx >= 0 && idx < len(res) {
+			res[idx] = append(res[idx], rest[sp+1:])
+		}
+	}
+	if !seen && !strings.Contains(string(out), "ok  ") {
+		return nil, fmt.Errorf("%s", lastLines(string(out), 4))
+	}
+	return res, nil
 }
